@@ -2,8 +2,9 @@
 Model of `src/serde/intern.rs` (`intern_tree_limited`, `intern_tree`, `InternedTree`).
 
 The *source* of an interning run is a DAG inside an `Allocator`: the memo `node_to_interned` is keyed
-by source `NodePtr`, so sharing in the source is observable by the traversal (not by its result —
-that is theorem `C24.intern_depends_on_denotation_only`).  The source is therefore modelled as a
+by source `NodePtr`, so sharing in the source is observable by the traversal (its result is
+characterised by the denotation alone: `C24.intern_preserves`, `atoms_complete`, `pairs_complete`).
+The source is therefore modelled as a
 post-order node list (`Dag`): node `i` is an atom with its bytes or a pair of two earlier nodes.  Its
 denotation is `denote d i : Tree`.
 
@@ -22,7 +23,8 @@ Transcription rules
   the content (theorem `C24.atoms_distinct`).
 * Source node identity is the DAG index.  The implementation's identity is coarser for inline
   small atoms (equal values share one `NodePtr`); this only turns some memo misses into memo
-  hits, and the result does not depend on it (`C24.intern_depends_on_denotation_only`).
+  hits (the content-keyed maps decide what is created); the `INTERN` stream compares the tables
+  themselves on DAGs with equal inline atoms at different indices.
 * The new allocator is represented by the counters `new_atom` / `new_pair` consult
   (`Counters`): heap bytes incl. ghost heap, atom count incl. ghost atoms, pair count.  Every
   `new_atom(v)` adds `|v|` to the heap figure whether the atom is stored inline or in the buffer.
